@@ -367,3 +367,27 @@ func H_C06_base() {
 	verifAssert(len(b.nodes) == 0 && len(b.graphs) == 0, "C06.base.empty")
 	verifReach("C06.base")
 }
+
+// two-step histories from an arbitrary state: what clients observe (IsAnyPipelineRegistered) must keep agreeing with the
+// registry — state that is cached redundantly would have to be kept consistent by every mutator
+func H_C05_isany_after_history() {
+	K, L := verifParam("K"), verifParam("L")
+	s := symBroker(K, 2, false)
+	_ = L
+	def := Pipeline{PipelineID: s.p.id, EventType: s.t, NodeIDs: []NodeID{NodeID(nondetString()), NodeID(nondetString())}}
+	s.b.RegisterPipeline(def)
+	switch symLen(0, 3) {
+	case 0:
+		s.b.RemovePipeline(s.t, s.p.id)
+	case 1:
+		s.b.RemovePipelineAndNodes(context.Background(), s.t, s.p.id)
+	case 2:
+		s.b.RemovePipeline(s.t, s.o.id)
+	case 3:
+		s.b.RegisterPipeline(def)
+		s.b.RemovePipeline(s.t, s.p.id)
+	}
+	any := s.b.IsAnyPipelineRegistered(s.t)
+	verifAssert(any == (s.lookupPipe(s.p.id) != nil || s.lookupPipe(s.o.id) != nil), "C05.isany.agrees-after-history")
+	verifReach("C05.isany.history")
+}
